@@ -10,6 +10,7 @@ import (
 	"encoding/json"
 	"errors"
 	"fmt"
+	"reflect"
 	"strconv"
 	"strings"
 	"time"
@@ -196,6 +197,47 @@ func (s *Spec) appendTo(enc zapcore.ArrayEncoder) error {
 
 func ptrTo[T any](v T) *T { return &v }
 
+// Input guards (C03): constructors must not modify the slices they are given.
+// When enabled, Field() snapshots every slice argument before handing it to the
+// constructor; checkInputGuards compares afterwards (after AddTo, too).
+var (
+	inputGuardOn bool
+	inputGuards  []func() string
+)
+
+func guardInput(what string, snap func() string) {
+	if !inputGuardOn {
+		return
+	}
+	before := snap()
+	inputGuards = append(inputGuards, func() string {
+		if after := snap(); after != before {
+			return fmt.Sprintf("%s modified the slice it was given:\n before: %s\n after:  %s", what, clipS(before), clipS(after))
+		}
+		return ""
+	})
+}
+
+func checkInputGuards() string {
+	gs := inputGuards
+	inputGuards = nil
+	for _, g := range gs {
+		if e := g(); e != "" {
+			return e
+		}
+	}
+	return ""
+}
+
+func fieldsSnap(fs []zapcore.Field) string {
+	var sb strings.Builder
+	fmt.Fprintf(&sb, "%d:", len(fs))
+	for _, f := range fs {
+		fmt.Fprintf(&sb, "[%q %d %d %q %T]", f.Key, f.Type, f.Integer, f.String, f.Interface)
+	}
+	return sb.String()
+}
+
 // Field builds the zap.Field through the public constructors.
 func (s *Spec) Field() zapcore.Field {
 	k := s.Key
@@ -350,22 +392,30 @@ func (s *Spec) Field() zapcore.Field {
 	case "inline":
 		return zap.Inline(specObj{s})
 	case "dict":
-		return zap.Dict(k, s.kidFields()...)
+		fs := s.kidFields()
+		guardInput("zap.Dict", func() string { return fieldsSnap(fs) })
+		return zap.Dict(k, fs...)
 	case "inlinedict":
-		return zap.Inline(zap.DictObject(s.kidFields()...))
+		fs := s.kidFields()
+		guardInput("zap.DictObject", func() string { return fieldsSnap(fs) })
+		return zap.Inline(zap.DictObject(fs...))
 	case "objects":
 		vs := make([]specObj, len(s.Kids))
 		for i, c := range s.Kids {
 			vs[i] = specObj{c}
 		}
+		guardInput("zap.Objects", func() string { return fmt.Sprintf("%p %d", vs, len(vs)) + fmt.Sprint(vs) })
 		return zap.Objects(k, vs)
 	case "objectvalues":
 		vs := make([]specObjV, len(s.Kids))
 		for i, c := range s.Kids {
 			vs[i] = specObjV{c}
 		}
+		guardInput("zap.ObjectValues", func() string { return fmt.Sprint(len(vs), vs) })
 		return zap.ObjectValues(k, vs)
 	case "slice":
+		v := s.V
+		guardInput("slice constructor", func() string { return fmt.Sprintf("%d %v", reflect.ValueOf(v).Len(), v) })
 		return s.sliceField()
 	case "err":
 		return zap.NamedError(k, s.V.(*errSpec).build())
@@ -379,6 +429,7 @@ func (s *Spec) Field() zapcore.Field {
 		for i, e := range es {
 			out[i] = e.build()
 		}
+		guardInput("zap.Errors", func() string { return fmt.Sprintf("%d %#v", len(out), out) })
 		return zap.Errors(k, out)
 	case "stringer":
 		return zap.Stringer(k, s.V.(strSpec).build())
@@ -388,6 +439,7 @@ func (s *Spec) Field() zapcore.Field {
 		for i, e := range ss {
 			out[i] = e.build()
 		}
+		guardInput("zap.Stringers", func() string { return fmt.Sprintf("%d %#v", len(out), out) })
 		return zap.Stringers(k, out)
 	case "reflect":
 		return zap.Reflect(k, s.V)
